@@ -286,9 +286,9 @@ func c13Run(c *Ctx, dir string, pc *c13Case) {
 }
 
 const (
-	c13KnownWise        = "C13-wise-conversion-two-transactions"
-	c13KnownForexPair   = "C13-swissquote-forex-pair-one-transaction"
-	c13KnownIBRounding  = "C13-interactivebrokers-rounds-to-cents"
+	c13KnownWise       = "C13-wise-conversion-two-transactions"
+	c13KnownForexPair  = "C13-swissquote-forex-pair-one-transaction"
+	c13KnownIBRounding = "C13-interactivebrokers-rounds-to-cents"
 )
 
 // c13Known reports a recorded finding; at most two cases per key are kept in the evidence (the shared cap on stored
@@ -622,6 +622,11 @@ func runC13(c *Ctx) {
 		cases = append(cases, c13Golden(c)...)
 	}
 	c13RunCases(c, dir, cases)
+	// several statement files in one invocation (the importers that take more than one): every booking row still yields
+	// exactly one transaction, so the output holds as many transactions as the outputs for the single files together
+	if !c.Replay || c.OnlyStr == "multi" {
+		c13Multi(c, dir)
+	}
 	// directed search around disagreements: every row of a disagreeing statement alone
 	if len(c13Suspects) > 0 && !c.Replay {
 		directed := c13Directed(c13Suspects)
@@ -778,4 +783,65 @@ func c13Mutate(r *RNG, st *c13Stmt) string {
 	}
 	st.File = []byte(strings.Join(lines, ""))
 	return mut
+}
+
+// c13Multi: `knut import <imp> flags f1 f2` against the two single-file imports.
+func c13Multi(c *Ctx, dir string) {
+	type job struct {
+		idx           int
+		imp           string
+		a, b          *c13Stmt
+		c1, c2, c12   int
+		o1, o2, o12   string
+		e12           string
+		n1, n2, n12   int
+		ok1, ok2, ok3 bool
+	}
+	var jobs []*job
+	for k, imp := range []string{"revolut2", "com.wise"} {
+		for i := 0; i < c.N(120, 1500); i++ {
+			idx := k*1000000 + i
+			if !c.Want("multi", idx) {
+				continue
+			}
+			r := c.Rng("multi", idx)
+			jb := &job{idx: idx, imp: imp, a: c13Gen(r, imp), b: c13Gen(r, imp)}
+			if r.Chance(1, 5) {
+				jb.b = jb.a // the same export twice (overlapping downloads)
+			}
+			jobs = append(jobs, jb)
+		}
+	}
+	parallelFor(len(jobs), 16, func(q int) {
+		jb := jobs[q]
+		p1 := filepath.Join(dir, fmt.Sprintf("multi-%d-a.stmt", jb.idx))
+		p2 := filepath.Join(dir, fmt.Sprintf("multi-%d-b.stmt", jb.idx))
+		os.WriteFile(p1, jb.a.File, 0o644)
+		os.WriteFile(p2, jb.b.File, 0o644)
+		defer os.Remove(p1)
+		defer os.Remove(p2)
+		base := append([]string{"import", jb.imp}, jb.a.Args...)
+		jb.c1, jb.o1, _ = runKnut(c.KnutBin, 30*time.Second, nil, append(append([]string{}, base...), p1)...)
+		jb.c2, jb.o2, _ = runKnut(c.KnutBin, 30*time.Second, nil, append(append([]string{}, base...), p2)...)
+		jb.c12, jb.o12, jb.e12 = runKnut(c.KnutBin, 30*time.Second, nil, append(append([]string{}, base...), p1, p2)...)
+		r1, r2, r3 := c13ReadOutput(jb.o1), c13ReadOutput(jb.o2), c13ReadOutput(jb.o12)
+		jb.n1, jb.n2, jb.n12 = r1.NTx, r2.NTx, r3.NTx
+		jb.ok1, jb.ok2, jb.ok3 = r1.OK, r2.OK, r3.OK
+	})
+	for _, jb := range jobs {
+		c.Evals++
+		in := map[string]any{"importer": jb.imp, "args": strings.Join(jb.a.Args, " "), "statement_1": string(jb.a.File), "statement_2": string(jb.b.File)}
+		c.Class(fmt.Sprintf("multi/%s/exit%d%d%d/rows%s", jb.imp, jb.c1, jb.c2, jb.c12, bucket(jb.a.Rows+jb.b.Rows)))
+		if jb.c1 != 0 || jb.c2 != 0 {
+			c.Monitor("multi", jb.idx, "a statement that fails alone fails the joint import", in, jb.c12 != 0, fmt.Sprintf("exit codes %d %d, joint %d", jb.c1, jb.c2, jb.c12))
+			continue
+		}
+		if !c.Monitor("multi", jb.idx, "two importable statements import together", in, jb.c12 == 0 && jb.ok3, fmt.Sprintf("exit %d: %s", jb.c12, clip(jb.e12))) {
+			continue
+		}
+		if jb.ok1 && jb.ok2 {
+			c.Monitor("multi", jb.idx, "one transaction per booking row (joint import = sum of the single imports)", in, jb.n12 == jb.n1+jb.n2,
+				fmt.Sprintf("transactions: file 1 alone %d, file 2 alone %d, both %d\n%s", jb.n1, jb.n2, jb.n12, clip(jb.o12)))
+		}
+	}
 }
